@@ -285,3 +285,16 @@ def cn(src):
     t = parse(src)
     b = t.body[0]
     return norm(b.value) if isinstance(b, ast.Expr) else norm(b)
+
+
+def where_unpack(s):
+    """(target, condition) of `T, = np.where(C)` in its canonical spelling `T = np.flatnonzero(C)` (also the literal unpacking form), else None"""
+    if not (isinstance(s, ast.Assign) and len(s.targets) == 1 and isinstance(s.value, ast.Call) and len(s.value.args) == 1 and not s.value.keywords):
+        return None
+    fn = norm(s.value.func)
+    t = s.targets[0]
+    if fn in ('np.flatnonzero', 'numpy.flatnonzero') and not isinstance(t, (ast.Tuple, ast.List)):
+        return t, s.value.args[0]
+    if fn in ('np.where', 'np.nonzero') and isinstance(t, (ast.Tuple, ast.List)) and len(t.elts) == 1:
+        return t.elts[0], s.value.args[0]
+    return None
